@@ -286,18 +286,19 @@ def run_enc(ctx, rng, ce, alg, mode):
         if back != data:
             ctx.violation(key_ + '|roundtrip', 'Decrypt(Encrypt(m)) != m (%d -> %d bytes)' % (len(data), len(back)), detail)
         # authenticated modes reject modifications
-        if mode == BM.GCM and len(ct) > 0:
-            for what in ('ct', 'tag', 'aad'):
+        if mode == BM.GCM:
+            for what in (('ct', 'tag', 'aad', 'nonce') if len(ct) > 0 else ('tag', 'aad', 'nonce')):
                 ct2, tag2, aad2 = ct, res.get('auth_tag'), aad
                 if what == 'ct':
                     ct2 = bytes([ct[0] ^ 1]) + ct[1:]
                 elif what == 'tag':
                     tag2 = bytes([tag2[0] ^ 1]) + tag2[1:]
-                else:
+                elif what == 'aad':
                     aad2 = (aad or b'') + b'x'
+                iv2 = used_iv if what != 'nonce' else bytes([used_iv[0] ^ 1]) + used_iv[1:]
                 ctx.count('negatives_tried')
                 try:
-                    r2 = ce.decrypt(alg, key, ct2, cipher_mode=mode, padding_method=padm, iv_nonce=used_iv,
+                    r2 = ce.decrypt(alg, key, ct2, cipher_mode=mode, padding_method=padm, iv_nonce=iv2,
                                     auth_additional_data=aad2, auth_tag=tag2)
                     ctx.violation(key_ + '|accepts-modified-' + what, 'GCM decryption accepted a modified %s' % what, detail)
                 except Exception:
@@ -629,6 +630,44 @@ def run_server_derive(ctx, rng):
                                                                           [E.CryptographicUsageMask.DERIVE_KEY])])], a)
             if r.error is None and r.ok():
                 bases.append((None, sd, r.uid()))
+            # several base objects and no derivation data in the request: the first object is the keying material,
+            # the first *later* Secret Data object supplies the derivation data
+            sds = [b for b in bases if b[0] is None]
+            r2 = srv.send([op_register('secret', secret_data(rb(rng, 20)), [rig.attr(E.AttributeType.CRYPTOGRAPHIC_USAGE_MASK,
+                                                                                   [E.CryptographicUsageMask.DERIVE_KEY])])], a)
+            second_sd = (None, None, None)
+            if r2.error is None and r2.ok():
+                g2 = srv.send([op_get(r2.uid())], a)
+                v2 = None
+                for _, it in T.walk(g2.payload() or (0, 1, [])):
+                    if it[0] == 0x420043:
+                        v2 = it[2]
+                second_sd = (None, v2, r2.uid())
+            if second_sd[1] is not None:
+                for first in bases:
+                    for method, (ha, h) in itertools.product((DM.HMAC, DM.NIST800_108_C), (list(HASHES.items())[3], list(HASHES.items())[5])):
+                        length = 128
+                        dp = attrs.DerivationParameters(cryptographic_parameters=cparams(hashing_algorithm=ha),
+                                                        salt=b'saltsalt' if method == DM.HMAC else None)
+                        r = srv.send([op_derive_key([first[2], second_sd[2]], method=method, params=dp,
+                                                    attributes_list=sym_attrs(CA.AES, length, ALL_MASKS))], a, (1, 2))
+                        ctx.ev()
+                        if r.error is not None or not r.ok():
+                            ctx.count('refused')
+                            continue
+                        g = srv.send([op_get(r.uid())], a, (1, 2))
+                        val = None
+                        for _, it in T.walk(g.payload() or (0, 1, [])):
+                            if it[0] == 0x420043:
+                                val = it[2]
+                        want = hkdf_ref(h, first[1], b'saltsalt', second_sd[1], 16) if method == DM.HMAC else \
+                            kbkdf_ref(h, first[1], second_sd[1], 16)
+                        ctx.count('references_compared')
+                        ctx.cell('server-derive-2', method.name, ha.name, 'first:%s' % (first[0].name if first[0] else 'SecretData'))
+                        if val != want:
+                            ctx.violation('server|derive-two-objects|%s|first:%s' % (method.name, 'SecretData' if first[0] is None else 'key'),
+                                          'DeriveKey over two base objects (keying object %s, then a Secret Data object as derivation '
+                                          'data) differs from the reference' % (first[0].name if first[0] else 'SecretData'), None)
             for (balg, key, uid), (ha, h), method in itertools.product(bases, list(HASHES.items())[1:], (DM.HMAC, DM.PBKDF2, DM.NIST800_108_C, DM.HASH)):
                 length = rng.choice((128, 256, 64))
                 data = rb(rng, 10)
